@@ -308,8 +308,12 @@ template<class T> static void k_lxnorm(const In<T,2>& in,vf::Ctx& c){ TRT typede
 // proj = dot(x,N)/dot(N,N)*N: numerator L u S_d, denominator relative L u, division u, product u:
 //   |err_i| <= (2L+2) u |N_i| S_d / |N|^2 ;  perp = x - proj: + u(|x_i| + |proj_i|)
 template<class T,int L> static void k_projperp(const In<T,2>& in,vf::Ctx& c,bool perp){ TRT typedef VA<T,L> A;
-	const T *x=in.v[0],*N=in.v[1]; if(!dom<T,L>(x)||!dom<T,L>(N)) SKIP("out-of-domain");
+	// proj/perp are judged on the whole domain of the statement (squared norms and the dot product neither overflow nor underflow),
+	// which is wider than the +-2^(E2/2) magnitudes used for the other checks: |v|^2 and sum|x_i N_i| within 2^+-EW
+	const T *x=in.v[0],*N=in.v[1]; const int EW= sizeof(T)==4? 120: 1000;
+	{ W nx=n2of<T,L>(x), nN=n2of<T,L>(N); if(!fin<T,L>(x)||!fin<T,L>(N)||!(nx>=Tr<T>::p2(-EW)&&nx<=Tr<T>::p2(EW)&&nN>=Tr<T>::p2(-EW)&&nN<=Tr<T>::p2(EW))) SKIP("out-of-domain"); }
 	W d=0,S=0,nn=n2of<T,L>(N); for(int i=0;i<L;i++){ W p=(W)x[i]*(W)N[i]; d+=p; S+=w_abs(p); }
+	if(S>Tr<T>::p2(EW) || (S!=0 && S<Tr<T>::p2(-EW))) SKIP("dot-product-out-of-range"); c.cls(nn>Tr<T>::p2(Tr<T>::E2)||nn<Tr<T>::p2(-Tr<T>::E2)? "extreme-magnitude-Normal":"moderate-magnitude-Normal");
 	T g[4]; auto gx=A::mk(x,in.mode), gN=A::mk(N,in.mode); if(perp) out<A,T,L>(glm::perp(gx,gN),g); else out<A,T,L>(glm::proj(gx,gN),g);
 	W r[4],bd[4]; const char* nm= perp? "perp":"proj";
 	for(int i=0;i<L;i++){ W pr=d/nn*(W)N[i], pb=W(SF*(2*L+2))*u*w_abs((W)N[i])*S/nn+4*tiny*(1+w_abs((W)N[i])+w_abs((W)N[i])/nn); r[i]= perp? (W)x[i]-pr: pr; bd[i]= perp? pb+W(SF)*u*(w_abs((W)x[i])+w_abs(pr)): pb; }
@@ -502,7 +506,7 @@ template<class T> static void run_type(const char* label,Ops o,u64 n){
 		for(u64 it=t;it<n;it+=TT){ int L=1+(int)(it%4), pm=(int)(r.next()&1); T a[4],b[4],d[4];
 			g.vec(a,L); g.rel(a,b,L); g.rel(r.coin()?a:b,d,L);
 			In<T,1> i1=mkin<T,1>(L,pm,0,a); In<T,2> i2=mkin<T,2>(L,pm,0,a,b);
-			RUN(dot,i2); RUN(length,i1); RUN(distance,i2); RUN(normalize,i1); RUN(reflect,i2); RUN(length2,i1); RUN(distance2,i2); RUN(proj,i2); RUN(perp,i2); RUN(angle,i2);
+			RUN(dot,i2); RUN(length,i1); RUN(distance,i2); RUN(normalize,i1); RUN(reflect,i2); RUN(length2,i1); RUN(distance2,i2); RUN(proj,i2); RUN(perp,i2); { /* extreme magnitudes for proj/perp only */ T ex[4],eN[4]; int hi= sizeof(T)==4? 58: 480, lo= sizeof(T)==4? 42: 320; int e1=r.range(lo,hi)*(r.coin()?1:-1), e2=r.range(-hi,hi); if(e1+e2>2*hi-20) e2=2*hi-20-e1; if(e1+e2<-(2*hi-20)) e2=-(2*hi-20)-e1; g.vec_e(eN,L,e1); if(r.below(3)==0){ g.rel(eN,ex,L); } else g.vec_e(ex,L,e2); In<T,2> ie=mkin<T,2>(L,pm,0,ex,eN); RUN(proj,ie); RUN(perp,ie); } RUN(angle,i2);
 			{ // faceforward: N=a, I, Nref with dot(Nref,I) in {clearly +-, exactly 0, +-tiny}
 				T I[4],R[4]; int m=(int)r.below(8); for(int k=0;k<4;k++){ I[k]=b[k]; R[k]=0; }
 				if(m<3) g.rel(I,R,L);
